@@ -32,7 +32,7 @@ SPEC = {
 
 
 def generate(rng, tier, shard, nshards, mon):
-    n = (320 if tier == "quick" else 6000) // nshards
+    n = (640 if tier == "quick" else 6000) // nshards
     fams = kernels.FAMILIES
     for i in range(n):
         fam = fams[(i * nshards + shard) % len(fams)] if i < 2 * len(fams) else rng.choice(fams)
